@@ -199,9 +199,16 @@ def renderTask (t : Task) : String :=
   | .sendTest | .discardCb | .enq => s!"len={t.lenAtSend} blocked inv=[{invS}] onerr=[{onS}]"
   | _ => s!"len={t.lenAtSend} acc ret={t.sendRet} inv=[{invS}] onerr=[{onS}] get=- get2=- err=-"
 
+/-- closures handed to `sendInnerCallback` so far (= passages of hook site 3, counted by the harness): attempts begun
+    whose closure is past stage `none` -/
+def submitted (sc : Scen) (s : State) : Nat :=
+  ((List.range sc.tasks.size).map fun k =>
+    let t := s.task k
+    ((List.range t.att).filter fun a => (t.at_ a).pc != CPc.none).length).foldl (· + ·) 0
+
 def render (sc : Scen) (d : DState) : String :=
   let ts := (List.range sc.tasks.size).map fun k => renderTask (d.s.task k)
-  " ; ".intercalate ts ++ s!" # max={d.s.maxRunning}"
+  " ; ".intercalate ts ++ s!" # att={submitted sc d.s} # max={d.s.maxRunning}"
 
 
 /-! the observation, parsed, is used to prune executions that already contradict it (the final
